@@ -320,11 +320,11 @@ def run(ctx):
 
 CLAIM = {
     'technique': 'guard facts on the skip test, symbolic linear extents of range_add, typestate over the rendering '
-                 'loop (snprintf space vs result, retry path, trim guard), empty-extent lint',
+                 'loop (snprintf space vs result, retry path, trim guard), empty-extent lint, limit-after-add typestate',
     'text': 'static analysis: decides C10-a..f (mechanism) - no valid chunk reaches range_add and no missing chunk is '
             'skipped; each range is [start + header length, start + header length + comp_length - 1] with a range '
             'index entry of that size pointing at the chunk; the rendering accepts an entry only when it fitted, '
-            're-renders after growing, and trims only a non-empty string. Merge/limit combinatorics are not decided.',
+            're-renders after growing, and trims only a non-empty string. Merge/limit combinatorics are not decided. C10-g: the limit can stop the walk only after a range was added in the same iteration.',
     'note': 'trusted: clang 14 front end; snprintf returns the untruncated length (C99); access-path non-aliasing',
 }
 
